@@ -41,8 +41,9 @@ type step struct {
 }
 
 type scenario struct {
-	Steps    []step `json:"steps"`
-	MaxRetry int    `json:"maxretry"`
+	Steps  []step `json:"steps"`
+	RetryC int    `json:"retryc"`
+	RetryR int    `json:"retryr"`
 }
 
 var modes = map[string]tm.Propagation{
@@ -383,8 +384,8 @@ func main() {
 	if err != nil {
 		common.Fatal("%v", err)
 	}
-	byRetry := map[int][]*runner{}
-	var order []int
+	byRetry := map[[2]int][]*runner{}
+	var order [][2]int
 	for i, raw := range raws {
 		if !o.Want(i) {
 			continue
@@ -397,15 +398,16 @@ func main() {
 		cls := classOf(sc)
 		r := &runner{i: i, sc: sc, ctx: ctx, cancel: cancel, xids: map[string]int{}, seed: o.Seed, coord: coord}
 		r.t = w.Begin(map[string]interface{}{"i": i, "sc": sc}, cls)
-		r.t.Add("Start", "maxretry", sc.MaxRetry, "sig", "start")
+		r.t.Add("Start", "retryc", sc.RetryC, "retryr", sc.RetryR, "sig", "start")
 		byName[fmt.Sprintf("sc%d", i)] = r
-		if _, ok := byRetry[sc.MaxRetry]; !ok {
-			order = append(order, sc.MaxRetry)
+		key := [2]int{sc.RetryC, sc.RetryR}
+		if _, ok := byRetry[key]; !ok {
+			order = append(order, key)
 		}
-		byRetry[sc.MaxRetry] = append(byRetry[sc.MaxRetry], r)
+		byRetry[key] = append(byRetry[key], r)
 	}
 	for _, mr := range order {
-		tm.InitTm(tm.TmConfig{CommitRetryCount: mr, RollbackRetryCount: mr, DefaultGlobalTransactionTimeout: 60 * time.Second})
+		tm.InitTm(tm.TmConfig{CommitRetryCount: mr[0], RollbackRetryCount: mr[1], DefaultGlobalTransactionTimeout: 60 * time.Second})
 		rs := byRetry[mr]
 		sem := make(chan struct{}, 48)
 		var wg sync.WaitGroup
@@ -441,7 +443,7 @@ func main() {
 
 func classOf(sc scenario) string {
 	var b strings.Builder
-	fmt.Fprintf(&b, "retry=%d", sc.MaxRetry)
+	fmt.Fprintf(&b, "retry=%d/%d", sc.RetryC, sc.RetryR)
 	for _, s := range sc.Steps {
 		switch s.Op {
 		case "enter":
